@@ -582,6 +582,7 @@ func rulesC13(c *Ctx) {
 	R.Rule("R2", "output verifier, HTLC branch: every output passes the preimage facts and the signature facts", 4)
 	R.Rule("R3", "helpers hash what the mint verifies; the can-sign scan is a proper existential scan", 4)
 	R.Rule("R4", "shared: counting discipline, SIG_ALL scan, SIG_ALL handling in swap/melt, kind dispatch", 8)
+	R.Rule("R5", "after the locktime only the refund rule applies: the lock value and the preimage are examined only on paths where the lock is not expired", 3)
 	c.vocabProblems("R4")
 	c.ruleLockVerifier("R1", fnVerifyHTL, true)
 	c.ruleOutputVerifier("R2", true)
@@ -591,6 +592,71 @@ func rulesC13(c *Ctx) {
 	c.ruleSigAllOps("R4")
 	c.ruleKindDispatch("R4")
 	c.ruleSecretParserTotal("R4")
+	c.c13HashLockOnlyBeforeExpiry()
+}
+
+// c13HashLockOnlyBeforeExpiry: R5. After the locktime only the refund rule applies: the verifier looks at the lock
+// value and at the preimage only on paths where the lock is not expired (locktime unset, or now <= locktime). A
+// test of the lock value that runs before the expiry decision refuses an expired HTLC whose lock value is
+// malformed although the refund key (or anyone) may spend it.
+func (c *Ctx) c13HashLockOnlyBeforeExpiry() {
+	R := c.R
+	f := c.fn("R5", fnVerifyHTL)
+	if f == nil {
+		return
+	}
+	fk := c.P.FuncKey(f)
+	isLocktime := func(e *Ex) bool { return e != nil && strings.HasSuffix(e.String(), ".Locktime") }
+	isNow := func(e *Ex) bool { return e != nil && strings.Contains(e.String(), "time.Now()") }
+	notExpired := &Cond{Name: "the lock is not expired (no locktime, or now <= locktime)", Match: func(ft *Fact, _ *Origins) bool {
+		if ft.Kind != "cmp" {
+			return false
+		}
+		op := ft.Op.String()
+		switch {
+		case isLocktime(ft.A) && isConst(ft.B, "0"): // locktime <= 0
+			return (op == "<=" && ft.Pos) || (op == ">" && !ft.Pos) || (op == "==" && ft.Pos)
+		case isConst(ft.A, "0") && isLocktime(ft.B): // !(0 < locktime)
+			return (op == "<" && !ft.Pos) || (op == ">=" && ft.Pos)
+		case isNow(ft.A) && isLocktime(ft.B): // now <= locktime
+			return (op == "<=" && ft.Pos) || (op == ">" && !ft.Pos) || (op == "<" && ft.Pos)
+		case isLocktime(ft.A) && isNow(ft.B): // !(locktime < now)
+			return (op == "<" && !ft.Pos) || (op == ">=" && ft.Pos) || (op == ">" && ft.Pos)
+		}
+		return false
+	}}
+	n := 0
+	for _, og := range c.OpContexts(f) {
+		g := og.Fn
+		if g.Parent() != nil {
+			continue
+		}
+		lock := "P:" + f.Params[1].Name() + ".Data.Data"
+		for _, b := range g.Blocks {
+			if len(b.Instrs) == 0 {
+				continue
+			}
+			ifi, ok := b.Instrs[len(b.Instrs)-1].(*ssa.If)
+			if !ok {
+				continue
+			}
+			ft := og.EdgeFact(Edge{b, 0})
+			if ft == nil {
+				continue
+			}
+			txt := ft.String()
+			if !strings.Contains(txt, lock) && !strings.Contains(txt, ".Preimage") {
+				continue
+			}
+			n++
+			okE, why := c.RequireAt(ifi, notExpired)
+			R.Check("R5", fk, "hash lock consulted <= lock not expired", c.P.InstrPos(ifi), okE,
+				"the lock value and the preimage are examined only while the lock is not expired; after the locktime only the refund rule decides", why)
+		}
+	}
+	if n == 0 {
+		R.Check("R5", fk, "hash lock consulted <= lock not expired", c.P.Pos(f.Pos()), false, "the verifier examines the lock value somewhere", "no test of the lock value or the preimage found")
+	}
 }
 
 // ruleSigAllOps: R4.
